@@ -681,6 +681,12 @@ static int run_scenario(std::vector<std::string>& lines)
       in->fresh = 1000 * (in->idx + 1);
       insts[in->idx] = std::move(in);
     }
+    else if (c == "CF")
+    {
+      // CF i : decoder_param.config_from_file with an angle file that does not exist (the debugging aid, with its file missing)
+      Inst& in = *insts[(int)I(1)];
+      in.param.decoder_param.config_from_file = true; in.param.decoder_param.angle_path = "/nonexistent/rs_verif_angles.csv";
+    }
     else if (c == "TF")
     {
       // transform parameters (binary32 bit patterns): x y z roll pitch yaw; acts only in an ENABLE_TRANSFORM build
